@@ -17,6 +17,7 @@ let () =
           | "A" -> Some (z_of_int 8, List.init 17 (fun _ -> nz ()))
           | "X" -> Some (z_of_int 4, List.init 10 (fun _ -> nz ()))
           | "R" -> Some (z_of_int 8, List.init 33 (fun _ -> nz ()))
+          | "W" -> Some (z_of_int 8, List.init 39 (fun _ -> nz ()))
           | "V" ->
             (* only the registers of the mask are valid (valid_registers() yields just those) *)
             let mask = int_of_string (next ()) in
